@@ -84,6 +84,7 @@ pub struct RunStats {
     pub model_diverged: u64,
     pub unmount_crash_images: u64,
     pub unmount_faults: u64,
+    pub reclaim_after_retry_checked: u64,
     pub alias_hash_form: u64,
     pub alias_tail_form: u64,
     pub hard_faults: u64,
@@ -115,6 +116,10 @@ pub struct World {
     /// after a hard fault the oracles are relaxed for the rest of the run
     pub faulted: bool,
     pub faulted_in_rename: bool,
+    /// this step met an injected hard error
+    pub step_injected: bool,
+    /// C05: chain of an object whose removal failed without changing the table; the repeated call must give it back
+    pub pending_reclaim: Option<(Vec<u32>, String)>,
     /// library and model diverged (outcome oracle off): nothing more can be judged in this run
     pub stop: bool,
     pub unmount_failed: bool,
